@@ -132,6 +132,9 @@ def gen_scenarios(spec, rng, n):
         from ..rng import deep
         nops = rng.randint(1, 8 if deep() else 4)
         nact = 1 if client != "async" else rng.randint(1, 5 if deep() else 3)
+        threads = client != "async" and rng.random() < 0.2     # REAL caller threads sharing one sync/REST client
+        if threads:
+            nact = rng.choice([2, 2, 3])
         actors = [{"start": round(rng.choice([0, 0, 0.01, 0.3]) * (a > 0), 3), "ops": []} for a in range(nact)]
         for j in range(nops):
             if paged and client != "rest" and rng.random() < 0.2:
@@ -168,6 +171,9 @@ def gen_scenarios(spec, rng, n):
             rng.choice(actors)["ops"].append(op)
         actors = [a for a in actors if a["ops"]]
         sc = {"client": client, "actors": actors, "jitter_default": 1.0}
+        if threads and len(sc["actors"]) > 1:
+            sc["threads"] = True
+            sc["sched_seed"] = rng.randrange(2 ** 32)
         if client != "async" and rng.random() < 0.25:
             sc["overshoot"] = rng.choice([0.05, 0.25, 1.0])      # time.sleep(d) returns after d*(1+overshoot)
         if client == "async" and len(actors) > 1 and rng.random() < 0.2:
